@@ -93,6 +93,8 @@ pub struct Full {
     pub pending_proposal_count: usize,
     pub pending_commit: bool,
     pub own_leaf: Option<u32>,
+    /// what the MLS state itself says: false once the own removal has been merged
+    pub mls_active: Option<bool>,
     pub self_update: String,
     pub last: LastMsg,
     pub msgs_created: Vec<MsgProj>,
@@ -285,6 +287,7 @@ pub fn full<S: MdkStorageProvider>(mdk: &MDK<S>, gid: &GroupId) -> Full {
         pending_proposal_count: 0,
         pending_commit: false,
         own_leaf: None,
+        mls_active: None,
         self_update: String::new(),
         last: LastMsg {
             id: None,
@@ -312,6 +315,7 @@ pub fn full<S: MdkStorageProvider>(mdk: &MDK<S>, gid: &GroupId) -> Full {
         f.pending_proposal_count = g.pending_proposals().count();
         f.pending_commit = g.pending_commit().is_some();
         f.own_leaf = g.own_leaf().map(|_| g.own_leaf_index().u32());
+        f.mls_active = Some(g.is_active());
     }
     if let Ok(ch) = mdk.pending_member_changes(gid) {
         f.pending_adds = ch.additions.iter().map(|p| p.to_hex()).collect();
